@@ -101,3 +101,21 @@ def pyAllM {α : Type} (f : α → Option Bool) : List α → Option Bool
   | a :: t => do if (← f a) then pyAllM f t else pure false
 
 end Cv.Py
+
+namespace Cv.Py
+
+/-- `d[k] = v` on an insertion-ordered `dict` (association list): an existing key keeps its position -/
+def pyDictSet {β : Type} : List (String × β) → String → β → List (String × β)
+  | [], k, v => [(k, v)]
+  | (k', v') :: t, k, v => if k' = k then (k, v) :: t else (k', v') :: pyDictSet t k v
+
+/-- `d[k]`; `none` = KeyError -/
+def pyDictGet {β : Type} (d : List (String × β)) (k : String) : Option β := (d.find? fun p => p.1 = k).map (·.2)
+
+/-- `sub in s` for strings -/
+def pyStrContains (s sub : String) : Bool :=
+  let cs := s.toList
+  let ss := sub.toList
+  (List.range (cs.length + 1)).any fun i => (cs.drop i).take ss.length == ss
+
+end Cv.Py
